@@ -363,7 +363,7 @@ def _one_run(ctx, case, nc, rd, opts, feats, tree, visible, fset, pre, rng, entr
     # failures reported
     for r in sorted(failing):
         ctx.count("failing_files_checked")
-        if not any(os.path.join(src, r) in m or r in m for m in errs):
+        if not any(os.path.join(src, r) in m or r in m or os.path.basename(r) in m for m in errs):
             ctx.violation(case, "failure-not-reported", "%s: failing file %s is not named in any ERROR record (%r)" % (tag, r, errs[:3]))
             return False
     if not failing and errs:
